@@ -34,6 +34,7 @@ type c20Exchange struct {
 	TCP  bool   `json:"tcp"`
 	Buf  int    `json:"buf"` // 0 = no OPT
 	Raw  bool   `json:"raw_header_only,omitempty"`
+	ECS  bool   `json:"ecs,omitempty"`
 }
 
 type c20Case struct {
@@ -184,6 +185,10 @@ func c20Check(t kit.Fataler, cfg c20Config, port int, ref *dnsserver.FBDNSDB, ex
 	if ex.Buf > 0 {
 		req.SetEdns0(uint16(ex.Buf), false)
 		client.UDPSize = uint16(ex.Buf)
+		if ex.ECS {
+			o := req.IsEdns0()
+			o.Option = append(o.Option, &dns.EDNS0_SUBNET{Code: dns.EDNS0SUBNET, Family: 1, SourceNetmask: 24, Address: net.ParseIP("10.1.2.0").To4()})
+		}
 	}
 	var got *dns.Msg
 	var err error
@@ -336,6 +341,7 @@ func genC20Exchange(t *rapid.T) c20Exchange {
 	ex.TCP = rapid.IntRange(0, 3).Draw(t, "tcp") == 0
 	ex.Buf = rapid.SampledFrom([]int{0, 0, 512, 1232, 4096}).Draw(t, "buf")
 	ex.Raw = rapid.IntRange(0, 24).Draw(t, "raw") == 0
+	ex.ECS = ex.Buf > 0 && rapid.Bool().Draw(t, "ecs")
 	return ex
 }
 
@@ -360,6 +366,49 @@ func c20Run(t kit.Fataler, cfg c20Config, exs []c20Exchange, record bool) {
 	defer ref.Close()
 	for _, ex := range exs {
 		c20Check(t, cfg, port, ref, ex, record)
+	}
+	// concurrent phase: many clients at once, each asking for its own name; every reply
+	// must be about the name that was asked (ANY refusal synthesises a record per request)
+	var wg sync.WaitGroup
+	var mu sync.Mutex
+	var bad []string
+	addr := fmt.Sprintf("127.0.0.1:%d", port)
+	for g := 0; g < 8; g++ {
+		wg.Add(1)
+		go func(g int) {
+			defer wg.Done()
+			c := &dns.Client{Net: []string{"udp", "tcp"}[g%2], Timeout: 3 * time.Second}
+			for i := 0; i < 40; i++ {
+				name := fmt.Sprintf("c%d-%d.%s", g, i, []string{"example.com.", "wild.example.com.", "other.org."}[i%3])
+				req := new(dns.Msg)
+				req.SetQuestion(name, []uint16{dns.TypeANY, dns.TypeA}[i%2])
+				r, _, err := c.Exchange(req, addr)
+				if err != nil {
+					continue
+				}
+				msg := ""
+				if len(r.Question) != 1 || r.Question[0].Name != name {
+					msg = fmt.Sprintf("asked %s, reply question %v", name, r.Question)
+				}
+				for _, rr := range r.Answer {
+					if rr.Header().Name != name {
+						msg = fmt.Sprintf("asked %s type %d, answer record owned by %s", name, req.Question[0].Qtype, rr.Header().Name)
+					}
+				}
+				if msg != "" {
+					mu.Lock()
+					bad = append(bad, msg)
+					mu.Unlock()
+				}
+			}
+		}(g)
+	}
+	wg.Wait()
+	if len(bad) > 0 {
+		kit.Fail(t, "C20", "concurrent-reply-mixup", c20Case{Config: cfg, Exchange: c20Exchange{Name: "(8 concurrent clients, ANY and A for distinct names)"}}, "under 8 concurrent clients: %s (%d such replies)", bad[0], len(bad))
+	}
+	if record {
+		kit.Class("concurrent-phase")
 	}
 }
 
